@@ -319,7 +319,7 @@ def stdRequests (n : Nat) : List FsRequest :=
 end TxnFmt
 
 open TxnFmt in
-def recvStep (st : DState) (toks : List String) : DState × String :=
+def recvStepFs (fs0 : Fs.FS) (st : DState) (toks : List String) : DState × String :=
   match toks with
   | ["new", mode, fss, seg, crc, mx, ti, ta, tn, np, delay, fho] =>
     let cfg : Recv.Config :=
@@ -329,7 +329,7 @@ def recvStep (st : DState) (toks : List String) : DState × String :=
         max := mx.toNat?.getD 0, ti := ti.toNat?.getD 0, ta := ta.toNat?.getD 0, tn := tn.toNat?.getD 0,
         immediate := np == "imm", delay := (delay.toNat?.getD 0) * 1000000, fho := parseFho fho,
         src := u16id 1, dst := u16id 2, seq := u16id 7 }
-    let s := Recv.new cfg initFs 0
+    let s := Recv.new cfg fs0 0
     ({ st with now := 0, recv := some s, recvDead := false },
       s!"ok ind=[{";".intercalate (s.out.map recvInd)}] st={recvSnap s 0} fs={fsListing s.fs}")
   | op :: args =>
@@ -368,6 +368,8 @@ def recvStep (st : DState) (toks : List String) : DState × String :=
       | "abandon", _ => fin st (Recv.shutdown s0 now) "ok" now
       | _, _ => (st, "bad-op")
   | _ => (st, "bad-op")
+
+def recvStep (st : DState) (toks : List String) : DState × String := recvStepFs TxnFmt.initFs st toks
 
 open TxnFmt in
 def sendStep (st : DState) (toks : List String) : DState × String :=
@@ -476,6 +478,23 @@ def daemonStep (toks : List String) : String :=
     | none => "bad-op"
   | _ => "bad-op"
 
+/-- the receiver's filestore in two-party runs: the destination directory of the transfer exists -/
+def netFs : Fs.FS := TxnFmt.initFs ++ [(["out".toList], .dir)]
+
+/-- two-party runs (`Model/Net.lean`): the sender and the receiver model side by side on one clock;
+`net s <op>` / `net r <op>` are the ops of the `send` / `recv` engines, the harness plays the link -/
+def netStep (st : DState) (toks : List String) : DState × String :=
+  match toks with
+  | "new" :: rest =>
+    let sendToks := rest.takeWhile (· != "|")
+    let recvToks := (rest.dropWhile (· != "|")).drop 1
+    let r1 := sendStep st ("new" :: sendToks)
+    let r2 := recvStepFs netFs r1.1 ("new" :: recvToks)
+    (r2.1, r1.2 ++ " | " ++ r2.2)
+  | "s" :: rest => sendStep st rest
+  | "r" :: rest => recvStepFs netFs st rest
+  | _ => (st, "bad-op")
+
 def step (st : DState) (line : String) : DState × String :=
   match (line.splitOn " ").filter (· ≠ "") with
   | "seg" :: rest => segStep st rest
@@ -487,6 +506,7 @@ def step (st : DState) (line : String) : DState × String :=
   | "daemon" :: rest => (st, daemonStep rest)
   | "recv" :: rest => recvStep st rest
   | "send" :: rest => sendStep st rest
+  | "net" :: rest => netStep st rest
   | _ => (st, "bad-op")
 
 partial def loop (h : IO.FS.Stream) (out : IO.FS.Stream) (st : DState) : IO Unit := do
